@@ -177,6 +177,7 @@ pub struct Gen<'a> {
     nodes_left: usize,
     next_anchor: usize,
     pub made_cross_alias: bool,
+    e_handle: bool,
 }
 
 const WORDS: [&str; 24] = [
@@ -196,6 +197,7 @@ impl<'a> Gen<'a> {
             nodes_left: 0,
             next_anchor: 1,
             made_cross_alias: false,
+            e_handle: false,
         }
     }
 
@@ -502,7 +504,7 @@ impl<'a> Gen<'a> {
 
     fn word(&mut self) -> String {
         if self.r.below(1000) < u64::from(self.sw.long_scalar) {
-            let len = *self.r.pick(&[6usize, 7, 8, 9, 14, 15, 16, 17, 31, 32, 63, 64, 65, 126, 127, 128, 129, 200, 255, 256, 999, 1000, 1001]);
+            let len = *self.r.pick(&[6usize, 7, 8, 9, 14, 15, 16, 17, 31, 32, 63, 64, 65, 126, 127, 128, 129, 200, 255, 256, 999, 1000, 1001, 1022, 1023, 1024, 1025, 1026]);
             let mut s = String::new();
             for i in 0..len {
                 s.push((b'a' + ((i * 7 + len) % 26) as u8) as char);
@@ -525,14 +527,23 @@ impl<'a> Gen<'a> {
 
     fn props(&mut self, out: &mut String) {
         if self.r.chance(1, 8) {
-            let name = format!("a{}", self.next_anchor);
+            let name = if !self.anchors_cur.is_empty() && self.r.chance(1, 5) {
+                // re-register an existing name (anchors can be overridden)
+                self.anchors_cur[self.r.usize(self.anchors_cur.len())].clone()
+            } else if self.r.chance(1, 10) {
+                (*self.r.pick(&["\u{e9}", "a\u{4e2d}", "\u{1F600}x", "\u{df}1", "a\u{a0}b", "a-b", "a.b", "a:b"])).to_string()
+            } else {
+                format!("a{}", self.next_anchor)
+            };
             self.next_anchor += 1;
             out.push('&');
             out.push_str(&name);
             out.push(' ');
             self.anchors_cur.push(name);
         }
-        if self.r.chance(1, 10) {
+        if self.e_handle && self.r.chance(1, 4) {
+            out.push_str(*self.r.pick(&["!e!x ", "!e!y%21 ", "!e! ", "!e!\u{e9} "]));
+        } else if self.r.chance(1, 10) {
             out.push_str(*self.r.pick(&[
                 "!!str ", "!!int ", "!t ", "!e!x ", "!<tag:x.y,2000:z> ", "! ", "!!map ", "!!seq ", "!!float ", "!!bool ", "!!null ",
                 // URI escapes in tags: one, two, three and four byte UTF-8 sequences, truncated and invalid ones
@@ -576,7 +587,7 @@ impl<'a> Gen<'a> {
                 7 => s.push_str("\\\n   "),
                 8 => s.push_str(" \n  \n  "),
                 9 => s.push_str("\\uD83D"),
-                10 => s.push_str("\\xZ1"),
+                10 => s.push_str(*self.r.pick(&["\\xZ1", "\\", "\\\r\n  ", "  \n", "\t\n\t", "\\ ", "\\u12", "\n... ", "\\N\\_\\L\\P\\e\\0\\a\\b\\v\\f\\r\\/"])),
                 _ => {
                     let w = self.word();
                     s.push_str(&w.replace(['"', '\\'], ""));
@@ -587,12 +598,42 @@ impl<'a> Gen<'a> {
         s
     }
 
+    fn sq(&mut self) -> String {
+        let mut s = String::from("'");
+        let k = 1 + self.r.usize(4);
+        for _ in 0..k {
+            match self.r.below(10) {
+                0 => s.push_str("''"),
+                1 => s.push_str(" \n  "),
+                2 => s.push_str("\n\n   "),
+                3 => s.push_str("  \n\t "),
+                4 => s.push_str("\t\n"),
+                5 => s.push_str("\n--- "),
+                6 => s.push_str(" # not a comment "),
+                7 => s.push_str("\\"),
+                _ => {
+                    let w = self.word();
+                    s.push_str(&w.replace('\'', "''"));
+                }
+            }
+        }
+        if !self.r.chance(1, 30) {
+            s.push('\'');
+        }
+        s
+    }
+
     /// An inline (flow-context-safe) scalar.
     fn inline_scalar(&mut self, in_flow: bool, as_key: bool) -> String {
         match self.r.below(10) {
             0 => {
-                let w = self.word().replace('\'', "''");
-                format!("'{w}'")
+                if self.r.chance(1, 2) {
+                    let w = self.word().replace('\'', "''");
+                    format!("'{w}'")
+                } else {
+                    let s = self.sq();
+                    if as_key { s.replace('\n', " ") } else { s }
+                }
             }
             1 | 2 => {
                 let s = self.dq();
@@ -906,11 +947,19 @@ impl<'a> Gen<'a> {
         let mut out = String::new();
         self.anchors_prev.clear();
         self.anchors_cur.clear();
+        self.e_handle = false;
+        let declare_e = self.r.chance(1, 6);
         for d in 0..docs {
             let mut doc = String::new();
             self.nodes_left = 1 + self.r.usize(self.sw.max_nodes);
             let mut explicit = d > 0 || self.r.chance(1, 3);
-            if self.r.chance(1, 10) {
+            if declare_e && (d == 0 || self.r.chance(1, 3)) {
+                // a %TAG !e! directive in the first document (and sometimes again later): later
+                // documents that use !e! without it are valid only under keep_tags(true)
+                doc.push_str(*self.r.pick(&["%TAG !e! tag:e.com,2000:\n", "%TAG !e! !local-\n", "%YAML 1.2\n%TAG !e! tag:e.com,2000:\n"]));
+                self.e_handle = true;
+                explicit = true;
+            } else if self.r.chance(1, 10) {
                 doc.push_str(*self.r.pick(&[
                     "%YAML 1.2\n", "%TAG !e! tag:e.com,2000:\n", "%TAG ! tag:x/\n", "%FOO bar\n", "# comment\n",
                     "%TAG !e! tag:%C3%A9/\n", "%TAG !! tag:%F0%9F%98%80:\n", "%YAML 1.2\n%YAML 1.2\n", "%TAG !e! a\n%TAG !e! b\n", "%YAML 1.1 # c\n", "%TAG !e! tag:%E2\n",
@@ -955,8 +1004,33 @@ pub fn truncate_chars(s: &mut String, n: usize) {
 /// Texts for the decoder (C18): short and long, heavy in Latin-1, CJK and astral characters,
 /// first character ASCII, no NUL.
 pub fn decoder_text(g: &mut Gen<'_>) -> (&'static str, String) {
-    let (name, mut t) = match g.r.below(10) {
-        0..=2 => {
+    let (name, mut t) = match g.r.below(22) {
+        21 => {
+            // sized texts: the encoded length lands on / next to the lengths the decode loop's
+            // arithmetic depends on (len/10, growth steps, 4 KiB and 64 KiB blocks)
+            let n = match g.r.below(100) {
+                0..=84 => *g.r.pick(&[
+                    0usize, 1, 2, 3, 4, 5, 7, 8, 9, 10, 11, 15, 16, 17, 19, 20, 21, 29, 30, 31, 39, 40, 41, 49, 50, 51, 99, 100, 101,
+                ]),
+                85..=97 => *g.r.pick(&[2047usize, 2048, 2049, 4095, 4096, 4097, 8191, 8192, 8193]),
+                _ => *g.r.pick(&[32767usize, 32768, 32769, 65535, 65536, 65537]),
+            };
+            let dens = *g.r.pick(&[0u64, 1, 3, 10]);
+            let mut s = String::new();
+            for i in 0..n {
+                if i == 0 {
+                    s.push('k');
+                } else if g.r.below(10) < dens {
+                    s.push(*g.r.pick(&['é', '中', '語', '😀', '€']));
+                } else if i % 97 == 96 {
+                    s.push('\n');
+                } else {
+                    s.push((b'a' + (i % 26) as u8) as char);
+                }
+            }
+            ("D-sized", s)
+        }
+        0..=5 => {
             // short expanding texts: the condition under which the growth step matters
             let n = 1 + g.r.usize(12);
             let mut s = String::new();
@@ -971,7 +1045,7 @@ pub fn decoder_text(g: &mut Gen<'_>) -> (&'static str, String) {
             }
             ("D-short", s)
         }
-        3 | 4 => {
+        6..=9 => {
             // long expanding text
             let n = 16 + g.r.usize(2000);
             let mut s = String::from("k: ");
@@ -994,6 +1068,8 @@ pub fn decoder_text(g: &mut Gen<'_>) -> (&'static str, String) {
     if !t.chars().next().is_some_and(|c| c.is_ascii() && c != '\0') {
         t.insert(0, *g.r.pick(&['a', '-', ' ', '#', '\n']));
     }
-    truncate_chars(&mut t, 4096);
+    if name != "D-sized" {
+        truncate_chars(&mut t, 4096);
+    }
     (name, t)
 }
